@@ -440,19 +440,29 @@ Definition op_ok (o : op) : Prop :=
   | OMeter now v => fl now /\ ok v /\ 0 < toQ v
   end.
 
+Lemma typed_state_ok s : Typed s -> state_ok s = true.
+Proof.
+  intros H. ty H. unfold state_ok, ok in *.
+  repeat match goal with K : is_ok _ = true |- _ => rewrite K; clear K end. reflexivity.
+Qed.
+Lemma strict_some r s' : r = Some s' -> Typed s' -> strict r = Some s'.
+Proof. intros -> H. unfold strict. rewrite (typed_state_ok s' H). reflexivity. Qed.
+Lemma strict_inv r s' : strict r = Some s' -> r = Some s'.
+Proof. unfold strict. destruct r as [s|]; [|discriminate]. destruct (state_ok s); [tauto|discriminate]. Qed.
+
 Lemma step_wf s o : WF s -> 0 < toQ (tempo s) -> op_ok o ->
   exists s', step s o = Some s' /\ WF s' /\ 0 < toQ (tempo s').
 Proof.
   intros W Ht Ho. destruct o as [now v|e v|now v|now v]; cbn [step op_ok] in *.
   - destruct Ho as (A & B & C). destruct (tempo_set_wf s now v W Ht A B C) as (s' & E & W' & T' & _).
-    exists s'. split; [assumption|split; [assumption|]]. rewrite T'. exact C.
+    exists s'. split; [apply strict_some; [exact E|exact (proj1 W')]|split; [assumption|]]. rewrite T'. exact C.
   - destruct Ho as (A & B & C). assert (N : ~ toQ v == 0) by lra.
     destruct (etempo_wf s e v W A B N) as (s' & E & W' & T' & _).
-    exists s'. split; [assumption|split; [assumption|]]. rewrite T'. exact C.
+    exists s'. split; [apply strict_some; [exact E|exact (proj1 W')]|split; [assumption|]]. rewrite T'. exact C.
   - destruct Ho as (A & B). destruct (beats_set_wf s now v W A B) as (s' & E & W' & T' & _).
-    exists s'. split; [assumption|split; [assumption|]]. rewrite T'. exact Ht.
+    exists s'. split; [apply strict_some; [exact E|exact (proj1 W')]|split; [assumption|]]. rewrite T'. exact Ht.
   - destruct Ho as (A & B & C). destruct (meter_set_wf s now v W A B C) as (s' & E & W' & _).
-    exists s'. split; [assumption|split; [assumption|]].
+    exists s'. split; [apply strict_some; [exact E|exact (proj1 W')]|split; [assumption|]].
     rewrite meter_set_eq in E. injection E as <-. exact Ht.
 Qed.
 
@@ -465,44 +475,69 @@ Proof.
     cbn [run]. rewrite E. apply IH; assumption.
 Qed.
 
-Lemma init_wf now t b x : ok now -> ok t -> ok b -> ok x -> 0 <= toQ t ->
-  exists s, py_init clock_blank now t b x = Some s /\ WF s /\ 0 < toQ (tempo s) /\
-    (0 < toQ t -> toQ (tempo s) == toQ t) /\
-    (~ toQ x == 0 -> val (py_secs2beats s x) (toQ b)).
+(* the constructor.  `seconds` given (ANY number, 0 included): the map goes through (seconds, beats);
+   `seconds` omitted: through (now, beats).  [The original `seconds or now` took an explicit 0 for
+   "not given": proposed fix build/proposed_fixes/C12_ctor_seconds_zero.diff.] *)
+Lemma por_spec a c : ok a -> ok c -> ok (por a c) /\
+  ((~ toQ a == 0 -> toQ (por a c) == toQ a) /\ (toQ a == 0 -> por a c = c)).
 Proof.
-  intros Hn Ht Hb Hx H0. unfold py_init.
-  assert (P : forall a c, ok a -> ok c -> ok (por a c) /\
-             ((~ toQ a == 0 -> toQ (por a c) == toQ a) /\ (toQ a == 0 -> por a c = c))).
-  { intros a c Ha Hc. destruct a; okd; unfold por, truth; cbn [toQ];
-      match goal with |- context [Qeq_bool ?u 0] => destruct (Qeq_bool_spec u 0) as [E|E] end; cbn [negb];
-      repeat split; try assumption; try reflexivity; intros; try contradiction; try reflexivity. }
-  destruct (P t (F 1) Ht eq_refl) as (Kt & Pt1 & Pt2).
-  destruct (P x now Hx Hn) as (Ks & Px1 & Px2).
-  destruct (P b (F 0) Hb eq_refl) as (Kb & Pb1 & Pb2).
-  set (t' := por t (F (1 # 1))) in *.
+  intros Ha Hc. destruct a; okd; unfold por, truth; cbn [toQ];
+    match goal with |- context [Qeq_bool ?u 0] => destruct (Qeq_bool_spec u 0) as [E|E] end; cbn [negb];
+    repeat split; try assumption; try reflexivity; intros; try contradiction; try reflexivity.
+Qed.
+
+Lemma init_shape t b S : ok t -> ok b -> ok S -> 0 <= toQ t ->
+  let t' := por t (F (1 # 1)) in
+  let s := mkClock t' (ntruediv (F (1 # 1)) t') S (por b (F (0 # 1))) (F (4 # 1)) (F (1 # 4)) (F (0 # 1)) (F (0 # 1)) in
+  nlt t' (F (0 # 1)) = false /\ WF s /\ 0 < toQ (tempo s) /\ (0 < toQ t -> toQ (tempo s) == toQ t) /\
+  val (py_secs2beats s S) (toQ b).
+Proof.
+  intros Ht Hb HS H0 t' s.
+  destruct (por_spec t (F 1) Ht eq_refl) as (Kt & Pt1 & Pt2).
+  destruct (por_spec b (F 0) Hb eq_refl) as (Kb & Pb1 & Pb2).
+  fold t' in Kt, Pt1, Pt2.
   assert (Tpos : 0 < toQ t').
   { destruct (Qeq_dec (toQ t) 0) as [E|E].
     - rewrite (Pt2 E). cbn. lra.
     - rewrite (Pt1 E). lra. }
   assert (E1 : nlt t' (F (0 # 1)) = false) by (apply (nlt_false _ _ (toQ t') 0 (val_refl _ Kt) (val_F 0)); lra).
-  rewrite E1. cbv zeta.
   assert (Hnz : ~ toQ t' == 0) by lra.
   destruct (val_ntruediv (F 1) t' 1 (toQ t') (val_F 1) (val_refl _ Kt) Hnz) as [Hd Hf].
-  eexists; split; [reflexivity|].
-  set (s := set_base_bar _ _).
   assert (T : Typed s).
   { unfold s, Typed; cbn. repeat split; try assumption; try reflexivity. exact (fl_ok _ Hf). }
-  split; [split; [exact T|split]|split; [exact Tpos|split]].
+  split; [exact E1|]. split; [split; [exact T|split]|split; [exact Tpos|split]].
   - unfold s, TInv; cbn. rewrite (val_toQ _ _ Hd). field. exact Hnz.
   - unfold s, MInv; cbn. split; [reflexivity|split; [reflexivity|]]. exists 0%Z. reflexivity.
   - intros Hp. cbn. apply Pt1. lra.
-  - intros Hx0. eapply val_eq. apply s2b_val; [exact T|apply val_refl; exact Hx].
-    cbn [s base_seconds base_beats tempo set_base_bar set_base_bar_beat set_bars_per_beat set_beats_per_bar
-         set_base_beats set_base_seconds set_beat_dur set_tempo].
-    rewrite (Px1 Hx0).
+  - eapply val_eq. apply s2b_val; [exact T|apply val_refl; exact HS].
+    unfold s; cbn [base_seconds base_beats tempo].
     destruct (Qeq_dec (toQ b) 0) as [E|E].
     + rewrite (Pb2 E). cbn [toQ]. rewrite E. ring.
     + rewrite (Pb1 E). ring.
+Qed.
+
+Lemma init_given now t b x : ok now -> ok t -> ok b -> ok x -> 0 <= toQ t ->
+  exists s, py_init clock_blank now t b x = Some s /\ WF s /\ 0 < toQ (tempo s) /\
+    (0 < toQ t -> toQ (tempo s) == toQ t) /\ val (py_secs2beats s x) (toQ b).
+Proof.
+  intros Hn Ht Hb Hx H0. destruct (init_shape t b x Ht Hb Hx H0) as (E1 & R).
+  unfold py_init. rewrite E1. eexists; split; [reflexivity|]. exact R.
+Qed.
+Lemma init_default now t b : ok now -> ok t -> ok b -> 0 <= toQ t ->
+  exists s, py_init_now clock_blank now t b = Some s /\ WF s /\ 0 < toQ (tempo s) /\
+    (0 < toQ t -> toQ (tempo s) == toQ t) /\ val (py_secs2beats s now) (toQ b).
+Proof.
+  intros Hn Ht Hb H0. destruct (init_shape t b now Ht Hb Hn H0) as (E1 & R).
+  unfold py_init_now. rewrite E1. eexists; split; [reflexivity|]. exact R.
+Qed.
+
+Lemma init_wf now t b x : ok now -> ok t -> ok b -> ok x -> 0 <= toQ t ->
+  exists s, py_init clock_blank now t b x = Some s /\ WF s /\ 0 < toQ (tempo s) /\
+    (0 < toQ t -> toQ (tempo s) == toQ t) /\
+    (~ toQ x == 0 -> val (py_secs2beats s x) (toQ b)).
+Proof.
+  intros Hn Ht Hb Hx H0. destruct (init_given now t b x Hn Ht Hb Hx H0) as (s & E & W & T & A & B).
+  exists s. repeat (split; [assumption|]). intros _. exact B.
 Qed.
 
 (* ---- the statements of props/C12.v that are projections of the lemmas above ------------- *)
